@@ -1,5 +1,6 @@
 import Lean.Data.Json
 import O2P.Model.Time
+import O2P.Model.Seq
 /-!
 Model driver: one JSON request per line on stdin, one JSON reply per line on stdout.
 Numbers that may exceed 2^53 travel as decimal strings.
@@ -42,12 +43,106 @@ def opFormatMicros (j : Json) : Except String Json := do
 
 end TimeOps
 
+def getArr (j : Json) (k : String) : Except String (Array Json) := do
+  match j.getObjVal? k with
+  | .ok (.arr a) => pure a
+  | _ => throw s!"missing array field {k}"
+
+def getIntS (j : Json) (k : String) : Except String Int := do
+  let s ← getStr j k
+  match s.toInt? with
+  | some n => pure n
+  | none => throw s!"field {k} is not an integer"
+
+def getBool (j : Json) (k : String) : Except String Bool := do
+  match j.getObjVal? k with
+  | .ok (.bool b) => pure b
+  | _ => throw s!"missing bool field {k}"
+
+def strList (a : Array Json) : Except String (List String) :=
+  a.toList.mapM fun x => match x with
+    | .str s => pure s
+    | _ => throw "expected string"
+
+def pairList (a : Array Json) : Except String (List (String × String)) :=
+  a.toList.mapM fun x => match x with
+    | .arr #[.str k, .str v] => pure (k, v)
+    | _ => throw "expected [string, string]"
+
+namespace SeqOps
+open O2P.Seq
+
+structure Flat where
+  span : Span
+  parent : Option String
+  kids : List String
+
+def parseFlat (j : Json) : Except String Flat := do
+  let id ← getStr j "id"
+  let typ ← getStr j "typ"
+  let start ← getIntS j "start"
+  let stop ← getIntS j "end"
+  let parent := match j.getObjVal? "parent" with
+    | .ok (.str p) => some p
+    | _ => none
+  let kids ← strList (← getArr j "children")
+  pure { span := { id, typ, start, stop }, parent, kids }
+
+/-- glue (not part of the proved model): flat id map → rose tree, children in `child_event_ids` order -/
+def build (fs : List Flat) : Nat → String → Except String Tree
+  | 0, _ => throw "cycle"
+  | fuel + 1, id => do
+    match fs.find? (·.span.id == id) with
+    | none => throw "missing-child"
+    | some f =>
+      let cs ← f.kids.mapM (build fs fuel)
+      pure (.node f.span cs)
+
+def parseCfg (j : Json) : Except String Cfg := do
+  let async ← getBool j "async"
+  let groups ← (← getArr j "groups").toList.mapM fun g => do
+    let p ← getStr g "parent"
+    let m ← pairList (← getArr g "map")
+    pure (p, m)
+  let renames ← (← getArr j "renames").toList.mapM fun r => do
+    let f ← getStr r "from"
+    let t ← getStr r "to"
+    let c ← strList (← getArr r "children")
+    pure (f, t, c)
+  pure { async, groups, renames }
+
+partial def typesOf : Tree → List (String × String)
+  | .node s cs => (s.id, s.typ) :: (cs.map typesOf).flatten
+
+/-- `sequence_otel_jobs` on one job given as the flat id map the code receives -/
+def job (j : Json) : Except String Json := do
+  let cfg ← parseCfg j
+  let fs ← (← getArr j "spans").toList.mapM parseFlat
+  -- convert_otel_event_stream_to_event_id_to_otelevent_map: every referenced parent must be present
+  if fs.any (fun f => match f.parent with
+      | some p => !(fs.any (·.span.id == p))
+      | none => false) then
+    return Json.mkObj [("status", "disconnected")]
+  match fs.filter (·.parent.isNone) with
+  | [r] =>
+    match build fs (fs.length + 1) r.span.id with
+    | .error e => pure <| Json.mkObj [("status", Json.str e)]
+    | .ok t =>
+      let (t', links) := sequence cfg t
+      pure <| Json.mkObj [("status", "ok"),
+        ("links", Json.arr (links.map fun (i, ps) => Json.arr #[Json.str i, Json.arr (ps.map Json.str).toArray]).toArray),
+        ("types", Json.arr ((typesOf t').map fun (i, ty) => Json.arr #[Json.str i, Json.str ty]).toArray)]
+  | _ => pure <| Json.mkObj [("status", "rootcount")]
+
+end SeqOps
+
 def handle (j : Json) : Except String Json := do
   let op ← getStr j "op"
   match op with
   | "time.fromNanos" => TimeOps.opFromNanos j
   | "time.toNanos" => TimeOps.opToNanos j
   | "time.formatMicros" => TimeOps.opFormatMicros j
+  | "seq.job" => SeqOps.job j
   | _ => throw s!"unknown op {op}"
 
 partial def loop (h : IO.FS.Stream) (out : IO.FS.Stream) : IO Unit := do
